@@ -1417,6 +1417,7 @@ fn sequences(lens: &[usize], max_msgs: usize) -> Vec<Vec<usize>> {
 fn main() {
     // a stack overflow / abort in the code under test must become a verdict, not a dead check
     vcore::supervise("C17");
+    vcore::install_log_evaluation(); // logging is part of the environment: log arguments are evaluated as under a real subscriber
     let ctx = Ctx::from_args("C17", "model_checking");
     if let Err(e) = frame::self_test() {
         vcore::machinery_exit(&format!("vref::frame self-test failed: {e}"));
